@@ -132,7 +132,8 @@ def successor_events(log, marker, dev='B'):
 
 def run_scenario(seed, shape, entry, delay_steps, tick, policy, depth,
                  with_successor, early=None, early_steps=0,
-                 early_entry='stop_current', via_web=False, early_delay=0):
+                 early_entry='stop_current', via_web=False, early_delay=0,
+                 same_again=None, background=False):
     env.THREAD_EXCEPTIONS.clear()
     env.MACHINE_STOPS.clear()
     s = sched.begin(seed, policy=policy, depth=depth, max_steps=300000)
@@ -175,6 +176,8 @@ def run_scenario(seed, shape, entry, delay_steps, tick, policy, depth,
                 assert job.program is not None, job.compile_errors
                 if name == 'job1':
                     instrument(job)
+                if background and name == 'job1':
+                    return job, jc.spawn_job(job, name)
                 return job, jc.add_job(job, name)
             got = []
             orig_add = jc.add_job
@@ -224,10 +227,27 @@ def run_scenario(seed, shape, entry, delay_steps, tick, policy, depth,
         res['own_steps_at_stop'] = rec1.steps
         blocked_at_stop = rec1.blocked_time
         agent_e = None
+        if background:
+            # the same name started again as a background job while the
+            # stopped one may still be winding down: its own complete run
+            for _ in range(max(early_delay, 0) % 40):
+                s.switch('driver')
+            agent_b = jc.spawn_job(ScriptJob.from_string(EARLY['finite']),
+                                   'job1')
+            res['restart_handle_is_new'] = agent_b is not agent1
         if early:
             # ... or a little later, while the stopped job winds down and the
             # controller moves on to the next one
-            for _ in range(early_delay):
+            if early_delay < 0:
+                # aimed at the completion: wait until the stopped job's thread
+                # is inside the controller's completion callback, then a few
+                # more of its steps
+                s.block_until(lambda: rec1.done or (rec1.loc or '').startswith(
+                    ('_on_execution_done', '_run_next_job', '_release_lock',
+                     'lock.')), 'completion callback')
+                for _ in range(-early_delay - 1):
+                    s.switch('driver')
+            for _ in range(max(early_delay, 0)):
                 s.switch('driver')
             agent_e = jc.add_job(ScriptJob.from_string(EARLY[early]), 'early')
         s.block_until(lambda: rec1.done or
@@ -295,6 +315,31 @@ def run_scenario(seed, shape, entry, delay_steps, tick, policy, depth,
                           or s.steps - s0 > 150000, 'reruns')
             res['rerun_has_jobs'] = jc.has_jobs()
             res['rerun_budget_exhausted'] = s.steps - s0 > 150000
+            if background:
+                res['restart_log'] = successor_events(simnet.LOG, 5, 'C')
+            if same_again is not None and not res['rerun_budget_exhausted']:
+                # the very same job object once more, stopped early this time
+                # (its previous run ended by a stop, or by itself)
+                agent5 = jc.add_job(job1, 'job1-same')
+                for _ in range(same_again):
+                    if not agent5.is_running():
+                        break
+                    s.switch('driver')
+                try:
+                    app.stop_current()
+                except sched.SchedAbort:
+                    raise
+                except Exception as ex:
+                    res['stop_raised'] = 'third stop: ' + repr(ex)
+                res['s2'] = s.steps
+                rec5 = agent5._thread._rec if agent5._thread else None
+                if rec5 is not None:
+                    res['same_alive_at_stop'] = not rec5.done
+                    own = rec5.steps
+                    s.block_until(lambda: rec5.done or
+                                  rec5.steps - own > OWN_STEPS, 'same job again')
+                    res['same_done'] = rec5.done
+                res['same_end_step'] = s.steps
             res['job3'] = successor_events(simnet.LOG[mark:], 8)
             if agent4 is not None:
                 res['job1_again_marker'] = any(
@@ -388,6 +433,32 @@ def check(ctx, res, shape, entry, with_successor, replay):
                               '{}: {} issued by an instruction that started '
                               'after the stop'.format(desc, e[:3]), replay)
                 return False
+    if res.get('same_done') is False:
+        ctx.violation('c:not-terminated:rerun-of-the-same-job',
+                      '{}: the same job object, started again and asked to stop '
+                      'early, is still alive after {} of its own scheduling '
+                      'steps'.format(desc, OWN_STEPS), replay)
+        return False
+    if res.get('same_done') and res.get('same_alive_at_stop'):
+        n2 = len([x for x in res['starts']
+                  if res['s2'] < x <= res['same_end_step']])
+        if n2 > 1:
+            ctx.violation('a:instructions-after-stop:rerun-of-the-same-job',
+                          '{}: in a further run of the same job object {} '
+                          'instructions started after the stop returned'
+                          .format(desc, n2), replay)
+            return False
+        ctx.count('same_job_reruns_stopped')
+    if replay.get('background'):
+        if res.get('restart_log') is not None and \
+                res.get('restart_log') != EARLY_LOG:
+            ctx.violation('f:background-restart-incomplete',
+                          '{}: a background job started again under the same '
+                          'name right after the stop produced {}'.format(
+                              desc, res.get('restart_log')), replay)
+            return False
+        if res.get('restart_log') is not None:
+            ctx.count('background_restarts_completed')
     if res.get('early_started') is False:
         ctx.violation('f:job-queued-after-stop-never-starts',
                       '{}: a job queued right after the stop returned had not '
@@ -474,19 +545,27 @@ def run_shard(ctx):
         early_entry = rng.choice(['stop_current', 'stop_current', 'stop_job',
                                   'stop_all'])
         early_delay = rng.choice([0, 0, rng.randint(1, 40),
-                                  rng.randint(1, 150)])
-        via_web = rng.random() < 0.4
+                                  rng.randint(1, 150), -rng.randint(1, 12),
+                                  -rng.randint(1, 12)])
+        same_again = rng.choice([None, None, 0, rng.randint(0, 30),
+                                 rng.randint(0, 200)])
+        background = (entry in ('stop_job', 'stop_all') and not with_successor
+                      and rng.random() < 0.35)
+        if background:
+            early = None
+        via_web = rng.random() < 0.4 and not background
         if via_web:
             ctx.count('started_through_front_end')
         res = run_scenario(seed, shape, entry, delay, tick, policy, depth,
                            with_successor, early, early_steps, early_entry,
-                           via_web, early_delay)
+                           via_web, early_delay, same_again, background)
         replay = {'shape': shape, 'entry': entry, 'delay_steps': delay,
                   'tick': tick, 'policy': policy, 'depth': depth, 'seed': seed,
                   'successor': with_successor, 'script': SHAPES[shape],
                   'early': early, 'early_steps': early_steps,
                   'early_entry': early_entry, 'via_web': via_web,
-                  'early_delay': early_delay}
+                  'early_delay': early_delay, 'same_again': same_again,
+                  'background': background}
         if early:
             ctx.count('early:' + early)
         ok = check(ctx, res, shape, entry, with_successor, replay)
@@ -536,7 +615,8 @@ def replay(doc):
                        r['tick'], r['policy'], r['depth'], r['successor'],
                        r.get('early'), r.get('early_steps', 0),
                        r.get('early_entry', 'stop_current'),
-                       r.get('via_web', False), r.get('early_delay', 0))
+                       r.get('via_web', False), r.get('early_delay', 0),
+                       r.get('same_again'), r.get('background', False))
     print({k: v for k, v in res.items() if k not in ('log', 'stamps', 'starts',
                                                      'schedule')})
     check(ctx, res, r['shape'], r['entry'], r['successor'], r)
